@@ -31,6 +31,7 @@ struct Merged {
     hist: BTreeMap<String, u64>,
     guards: BTreeMap<String, u64>,
     violations: BTreeMap<String, (u64, Value, String, u64, String)>, // count, case, detail, size, profile
+    contexts: BTreeMap<String, Value>, // signature -> {shard, nshards, case_no} of the kept example
     samples: Vec<Value>,
     extra: BTreeMap<String, Value>,
     capped: Vec<String>,
@@ -70,14 +71,17 @@ fn merge_worker(m: &mut Merged, v: &Value, hashes: &Path) {
             let count = x["count"].as_u64().unwrap_or(1);
             let size = x["size"].as_u64().unwrap_or(u64::MAX);
             let detail = x["detail"].as_str().unwrap_or("").to_string();
+            let cx = json!({"shard": x["shard"], "nshards": x["nshards"], "case_no": x["case_no"]});
             match m.violations.get_mut(&sig) {
                 Some(e) => {
                     e.0 += count;
                     if size < e.3 {
                         *e = (e.0, x["case"].clone(), detail, size, profile.clone());
+                        m.contexts.insert(sig, cx);
                     }
                 }
                 None => {
+                    m.contexts.insert(sig.clone(), cx);
                     m.violations.insert(sig, (count, x["case"].clone(), detail, size, profile.clone()));
                 }
             }
@@ -443,7 +447,8 @@ fn run_inner(def: &PropDef, tier: Tier, seed: u64, jobs_max: usize, scratch: &Pa
     let mut viol_report: Vec<Value> = Vec::new();
     for (sig, (count, case, detail, _size, profile)) in &merged.violations {
         let path = replay_dir.join(format!("{}.json", sig_hash(sig)));
-        let doc = json!({"property": prop, "signature": sig, "profile": profile, "tier": tier.name(), "detail": detail, "count": count, "case": case});
+        let doc = json!({"property": prop, "signature": sig, "profile": profile, "tier": tier.name(), "detail": detail, "count": count, "case": case,
+            "context": merged.contexts.get(sig).cloned().unwrap_or(Value::Null)});
         let _ = std::fs::write(&path, serde_json::to_string_pretty(&doc).unwrap());
         let kf = known.iter().find(|k| {
             k.get("property").and_then(|x| x.as_str()) == Some(prop)
